@@ -51,8 +51,11 @@ def rule_record(ctx: Ctx, L: SL.SimLoop, roles: Dict[str, Optional[str]], positi
             bound[name] = ast.unparse(a)
     for fld, var in roles.items():
         if var is None:
+            if fld == "reward" and fld in bound and ".reward(" in bound[fld]:
+                # the reward of the step is computed in place in the record (its arguments are SIM-3's business)
+                ctx.passed("SIM-5", fi, step, "record field reward = the step's reward", bound[fld])
             continue
-        inst = f"record field {fld} = {var}"
+        inst = f"record field {fld} = the step's {fld.replace('_', ' ')}"
         if fld not in bound:
             ctx.violation("SIM-5", fi, step, inst, f"field `{fld}` is not recorded")
         else:
